@@ -634,7 +634,7 @@ def _opaque_reads(ex, name, argv, st):
     return reads
 
 
-UF_RET = {"uf_isWorkingTime": T.Bool, "uf_tzoff": T.Real, "uf_sbidx": T.Int, "uf_minsum": T.Int, "uf_dur": T.Real}
+UF_RET = {"uf_isWorkingTime": T.Bool, "uf_tzoff": T.Real, "uf_sbidx": T.Int, "uf_minsum": T.Int, "uf_dur": T.Real, "uf_lower": T.Str}
 
 
 def parse_ty(spec: str):
@@ -897,7 +897,7 @@ def _method(ex, f: ast.Attribute, node, st):
             from .calendar import dt_replace
             return dt_replace(ex, base, node, st)
     if ty is T.Str and name in ("lower", "upper", "strip"):
-        fn = z3.Function("str_" + name, z3.IntSort(), z3.IntSort())
+        fn = z3.Function("uf_" + name, z3.IntSort(), z3.IntSort())
         return V(T.Str, [fn(base.t)])
     if isinstance(ty, T.Dict):
         if name == "get":
